@@ -26,7 +26,12 @@ func main() {
 	mutantsOnly := flag.Bool("mutants", false, "run only the sensitivity corpus of the property (no verdict on the tree)")
 	neutralOnly := flag.Bool("neutral", false, "run only the specificity corpus (/verif/neutral refactorings) for the property")
 	probeOpt := flag.Bool("probe-optional", false, "exploration aid: list unguarded dereferences of optional API pointer fields")
+	probeF := flag.String("probe-facts", "", "exploration aid: print the branch facts at every call and return of the named function")
 	flag.Parse()
+	if *probeF != "" {
+		probeFacts(*repo, *probeF)
+		return
+	}
 	if *probeOpt {
 		probeOptional(*repo)
 		return
